@@ -487,9 +487,9 @@ func (w *World) runTxn(p *TxnProg, h *TxnHist) {
 			cpDepth = len(stages)
 		case "revert":
 			if cp != nil {
+				// the checkpoint stays valid: a later step may revert to it again
 				txn.GetMemBuffer().RevertToCheckpoint(cp)
-				h.Buf = cpBuf
-				cp = nil
+				h.Buf = copyBuf(cpBuf)
 			}
 		case "lock":
 			var forTS uint64
